@@ -36,7 +36,7 @@ RULE = ('all DAGs on n cells (fixed topological order) x 4 variants x every '
         'itself in the focus (extraction has to follow a reference)')
 N = {'quick': 4, 'thorough': 5}
 BOUNDS = {t: {'cells': N[t], 'graphs': 2 ** (N[t] * (N[t] - 1) // 2),
-              'variants': 6, 'change_values': [0, 7]} for t in N}
+              'variants': 9, 'change_values': [0, 7]} for t in N}
 ASSUMPTIONS = ['reference closure: reachability in the generated graph']
 TECHNIQUE = ('exhaustive enumeration of dependency DAGs x focus sets x model '
              'states, extract() executed on the real model, differential '
@@ -51,7 +51,17 @@ LEVEL_NOTE = ('Every step runs the implementation; the only model is the '
               'generated graph used for the closure requirement.  Bounded: '
               'n <= 4 (5) cells, two alternative values per input.')
 
-VARIANTS = ('direct', 'range', 'two-sheets', 'name', 'range-blank', 'mirror')
+VARIANTS = ('direct', 'range', 'two-sheets', 'name', 'range-blank', 'mirror',
+            'twin-coord', 'name-case', 'gap')
+# twin-coord: cells 2k and 2k+1 have the same coordinate on two sheets (one
+#   formula then names Sheet1!B1 and Sheet2!B1);
+# name-case: the formulas spell the defined name in upper case (whatever the
+#   full model makes of that, the extract makes the same);
+# gap: one multi-row range with a run of more than 100 empty cells before its
+#   last members is part of every formula.
+GAP_RANGE = 'G1:G125'
+GAP_CELLS = {'Sheet1!G1': 1, 'Sheet1!G2': 2, 'Sheet1!G124': 40,
+             'Sheet1!G125': 25}
 MULT = (2, 3, 5, 7, 11)
 CHANGE_VALUES = (0, 7)
 # the defined name (a lower-case letter directly followed by a digit, like
@@ -83,19 +93,26 @@ def edges_of(code, n):
 def sheet_of(i, variant):
     if variant == 'mirror':
         return 'Sheet2'          # the judged copy; Sheet1 holds its twin
-    return 'Sheet2' if variant == 'two-sheets' and i % 2 else 'Sheet1'
+    return 'Sheet2' if variant in ('two-sheets', 'twin-coord') and i % 2 \
+        else 'Sheet1'
+
+
+def row_of(i, variant):
+    return i // 2 + 1 if variant == 'twin-coord' else i + 1
 
 
 def addr(i, variant):
-    return '%s!B%d' % (sheet_of(i, variant), i + 1)
+    return '%s!B%d' % (sheet_of(i, variant), row_of(i, variant))
 
 
 def ref_text(i, j, variant, n):
     """How cell i writes its reference to cell j."""
     if variant == 'name' and j == NAME_IDX:
         return NAME
-    if variant == 'two-sheets':
-        return '%s!B%d' % (sheet_of(j, variant), j + 1)
+    if variant == 'name-case' and j == NAME_IDX:
+        return NAME.upper()
+    if variant in ('two-sheets', 'twin-coord'):
+        return '%s!B%d' % (sheet_of(j, variant), row_of(j, variant))
     return 'B%d' % (j + 1)
 
 
@@ -110,8 +127,11 @@ def formula_of(i, deps_i, variant, n):
         # input) is > 3 - i.e. initially - and a number after a change
         body = '+'.join('B%d*%d' % (j + 1, MULT[j]) for j in deps_i)
         return '=IF(B%d>3,"",%s)' % (n, body)
-    return '=' + '+'.join('%s*%d' % (ref_text(i, j, variant, n), MULT[j])
-                          for j in deps_i)
+    body = '+'.join('%s*%d' % (ref_text(i, j, variant, n), MULT[j])
+                    for j in deps_i)
+    if variant == 'gap':
+        body += '+SUM(%s)' % GAP_RANGE
+    return '=' + body
 
 
 def variant_deps(code, n, variant):
@@ -145,7 +165,7 @@ def build(code, n, variant):
             model = lib.ModelCompiler().read_and_parse_archive(path)
         os.unlink(path)
         return model, deps
-    if variant == 'name':
+    if variant in ('name', 'name-case'):
         cells = {}
         for i in range(n):
             f = formula_of(i, deps[i], variant, n)
@@ -166,6 +186,8 @@ def build(code, n, variant):
     for i in range(n):
         f = formula_of(i, deps[i], variant, n)
         d[addr(i, variant)] = f if f else i + 1
+    if variant == 'gap':
+        d.update(GAP_CELLS)
     return lib.compile_dict(d), deps
 
 
@@ -277,8 +299,13 @@ def run_config(code, n, variant, mask, evaluated, ctx):
                       tags + ['oracle:original-unchanged'], inputs, False)
             missing = sorted(addr(i, variant) for i in clo
                              if addr(i, variant) not in ext.cells)
-            ctx.check(key0 + '/closure', 'missing:%s' % (missing[:3],),
-                      'missing:[]', tags + ['oracle:closure'], inputs, nontriv)
+            if variant != 'name-case':
+                # (name-case: whether the upper-case spelling denotes the
+                # named cell is the full model's business; only the values
+                # are compared)
+                ctx.check(key0 + '/closure', 'missing:%s' % (missing[:3],),
+                          'missing:[]', tags + ['oracle:closure'], inputs,
+                          nontriv)
         eve = lib.Evaluator(ext)
 
         def compare(step):
